@@ -257,12 +257,7 @@ func checkDoTrafficRouting(c *Ctx, fn *ssa.Function) {
 	noSvc := []FactM{FTrue(MField("OnlyTrafficRouting")), FTrue(MField("DisableGenerateCanaryService"))}
 	cutAny := func(ms ...FactM) func(*ssa.BasicBlock, int) bool {
 		return func(b *ssa.BasicBlock, k int) bool {
-			for _, m := range ms {
-				if EdgeFactMatches(b, k, m) {
-					return true
-				}
-			}
-			return false
+			return EdgeFactMatches(b, k, FOr(ms...))
 		}
 	}
 	type req struct {
